@@ -28,6 +28,9 @@ class _DfsPolicy:
     return enabled[0]
 
 
+DIVERGED = [0]
+
+
 def preemptions(decisions):
   return sum(1 for names, pick, last in decisions if last in names and pick != last)
 
@@ -46,6 +49,10 @@ def explore(run_fn, bound, max_runs=100000, root=()):
     except (S.Deadlock, S.StepBudget) as e:
       failure = e
       sched, result = getattr(e, 'sched', None), None
+    except S.ReplayDivergence:
+      # the code under test was not deterministic for this prefix: skip it
+      DIVERGED[0] += 1
+      continue
     runs += 1
     decisions = sched.decisions if sched is not None else pol_decisions(pol)
     picks = [d[1] for d in decisions]
@@ -77,6 +84,8 @@ def split_roots(run_fn, bound, depth):
       decisions = sched.decisions
     except (S.Deadlock, S.StepBudget) as e:
       decisions = getattr(e, 'sched').decisions if getattr(e, 'sched', None) else []
+    except S.ReplayDivergence:
+      continue
     if len(decisions) <= depth or len(prefix) >= depth:
       roots.append(prefix)
       continue
